@@ -56,3 +56,186 @@ class IsNa(Contract):
                  z3.Implies(in_range(j, v.sym["len"]), result.seq.at(j) == na_formula(cx.it, v.sym["kind"], v.sym["elem"](j))))
         cx.prove("fresh:new-buffer", result.freshness())
         cx.prove("frame:no-write-into-input-buffers", not ghost(cx.ctx)["input_writes"])
+
+
+# =========================================================================================
+# Vector methods: values + C06 (new buffer, receiver untouched)
+# =========================================================================================
+from contracts.data_frame import na_formula, vector_is_na_contract, DF_CALLEES, na_value_term, na_kind_term
+
+V_CALLEES = {"Vector.is_na": vector_is_na_contract}
+
+
+def vec_common(cx, result, v, what="result"):
+    ok = isinstance(result, NDArr)
+    cx.prove(f"{what}-is-an-array", ok)
+    if ok:
+        cx.prove("fresh:new-buffer", result.freshness())
+    cx.prove("frame:no-write-into-input-buffers", not ghost(cx.ctx)["input_writes"])
+    return ok
+
+
+class _Vec(Contract):
+    file = F
+    callees = V_CALLEES
+    prop = "C06"
+
+
+@register
+class VecDropNa(_Vec):
+    """drop_na: exactly the non-missing elements, in order, in a new buffer"""
+    qualname, also = "Vector.drop_na", ("C10",)
+
+    def setup(self, cx):
+        return {"self": sym_vector(cx, "self"), "args": []}
+
+    def ensures(self, cx, result):
+        v = cx.inputs["self"]
+        if not vec_common(cx, result, v):
+            return
+        keep = lambda i: z3.Not(na_formula(cx.it, v.sym["kind"], v.sym["elem"](i)))
+        e = Enum.of(cx.ctx, v.sym["len"], keep)
+        j = cx.ctx.fresh("j", INT)
+        cx.prove("length = number of non-missing elements", zint(result.len) == e.cnt)
+        cx.prove("elements = the non-missing ones in order", z3.Implies(in_range(j, e.cnt), M.to_v(cx.it, result.seq.at(j)) == v.sym["elem"](e.idx(j))))
+        cx.prove("dtype-kind-kept", kind_term(result.kind) == v.sym["kind"])
+
+
+@register
+class VecReplaceNa(_Vec):
+    """replace_na(value): missing positions get the value, all others keep theirs; receiver untouched"""
+    qualname, also = "Vector.replace_na", ("C10",)
+
+    def setup(self, cx):
+        return {"self": sym_vector(cx, "self"), "args": [cx.val("value")]}
+
+    def ensures(self, cx, result):
+        v = cx.inputs["self"]
+        if not vec_common(cx, result, v):
+            return
+        j = cx.ctx.fresh("j", INT)
+        val = cx.inputs["args"][0]
+        cx.prove("same-length", zint(result.len) == v.sym["len"])
+        cx.prove("exactly the missing positions are replaced",
+                 z3.Implies(in_range(j, v.sym["len"]), M.to_v(cx.it, result.seq.at(j)) ==
+                            z3.If(na_formula(cx.it, v.sym["kind"], v.sym["elem"](j)), val, v.sym["elem"](j))))
+
+
+class _VecHeadTail(_Vec):
+    tail = False
+
+    def setup(self, cx):
+        n = cx.int("n")
+        cx.assume(n >= 0)
+        return {"self": sym_vector(cx, "self"), "args": [n], "n": n}
+
+    def ensures(self, cx, result):
+        v, n = cx.inputs["self"], cx.inputs["n"]
+        if not vec_common(cx, result, v):
+            return
+        L = v.sym["len"]
+        m = z3.If(n <= L, n, L)
+        j = cx.ctx.fresh("j", INT)
+        cx.prove("length = min(n, len)", zint(result.len) == m)
+        src = (lambda jj: L - m + jj) if self.tail else (lambda jj: jj)
+        cx.prove("elements", z3.Implies(in_range(j, m), M.to_v(cx.it, result.seq.at(j)) == v.sym["elem"](src(j))))
+
+
+@register
+class VecHead(_VecHeadTail):
+    qualname = "Vector.head"
+
+
+@register
+class VecTail(_VecHeadTail):
+    qualname, tail = "Vector.tail", True
+
+
+@register
+class VecSample(_Vec):
+    qualname = "Vector.sample"
+
+    def setup(self, cx):
+        n = cx.int("n")
+        cx.assume(n >= 0)
+        return {"self": sym_vector(cx, "self"), "args": [n], "n": n}
+
+    def ensures(self, cx, result):
+        v, n = cx.inputs["self"], cx.inputs["n"]
+        if not vec_common(cx, result, v):
+            return
+        r = cx.it.__dict__.get("last_sorted_choice")
+        cx.prove("witness-available", r is not None)
+        if r is None:
+            return
+        L = v.sym["len"]
+        j, j2 = cx.ctx.fresh("j", INT), cx.ctx.fresh("j2", INT)
+        cx.prove("size = min(n, len)", zint(result.len) == z3.If(n <= L, n, L))
+        cx.prove("elements of distinct positions in original order",
+                 z3.And(zint(r.len) == zint(result.len),
+                        z3.Implies(in_range(j, r.len), z3.And(in_range(r.at(j), L), M.to_v(cx.it, result.seq.at(j)) == v.sym["elem"](r.at(j)))),
+                        z3.Implies(z3.And(in_range(j, r.len), in_range(j2, r.len), j < j2), r.at(j) < r.at(j2))))
+
+
+@register
+class VecConcat(_Vec):
+    qualname = "Vector.concat"
+
+    def setup(self, cx):
+        a, b = sym_vector(cx, "self"), sym_vector(cx, "other")
+        from pyvc.models_np import promotable
+        cx.assume(promotable(a.sym["kind"], b.sym["kind"]))
+        return {"self": a, "args": [b], "b": b}
+
+    def ensures(self, cx, result):
+        a, b = cx.inputs["self"], cx.inputs["b"]
+        if not vec_common(cx, result, a):
+            return
+        j = cx.ctx.fresh("j", INT)
+        cx.prove("length", zint(result.len) == a.sym["len"] + b.sym["len"])
+        cx.prove("first block", z3.Implies(in_range(j, a.sym["len"]), M.to_v(cx.it, result.seq.at(j)) == a.sym["elem"](j)))
+        cx.prove("second block", z3.Implies(in_range(j, b.sym["len"]), M.to_v(cx.it, result.seq.at(a.sym["len"] + j)) == b.sym["elem"](j)))
+        cx.prove("result-is-a-Vector", result.cls is not None and result.cls.name == "Vector")
+
+
+def _mk_as(method, kind):
+    class A(_Vec):
+        qualname = f"Vector.{method}"
+
+        def setup(self, cx):
+            return {"self": sym_vector(cx, "self"), "args": []}
+
+        def ensures(self, cx, result):
+            v = cx.inputs["self"]
+            if not vec_common(cx, result, v):
+                return
+            cx.prove("same-length", zint(result.len) == v.sym["len"])
+            cx.prove("dtype-kind", kind_term(result.kind) == KCODE[kind])
+    A.__name__ = "As_" + method
+    return register(A)
+
+
+for _m, _k in (("as_boolean", "bool"), ("as_float", "float"), ("as_integer", "int"), ("as_string", "string")):
+    _mk_as(_m, _k)
+
+
+@register
+class VecToList(_Vec):
+    """tolist: the original values with None exactly at the missing positions (a new list)"""
+    qualname, also = "Vector.tolist", ("C10",)
+
+    def setup(self, cx):
+        return {"self": sym_vector(cx, "self"), "args": []}
+
+    def ensures(self, cx, result):
+        from pyvc.core import MList
+        v = cx.inputs["self"]
+        cx.prove("result-is-a-list", isinstance(result, MList))
+        if not isinstance(result, MList):
+            return
+        s = M.unstructure(result.seq)
+        j = cx.ctx.fresh("j", INT)
+        cx.prove("same-length", zint(s.len) == v.sym["len"])
+        cx.prove("None exactly at the missing positions, values elsewhere",
+                 z3.Implies(in_range(j, v.sym["len"]), s.at(j) == z3.If(na_formula(cx.it, v.sym["kind"], v.sym["elem"](j)), NONE, v.sym["elem"](j))))
+        cx.prove("frame:no-write-into-input-buffers", not ghost(cx.ctx)["input_writes"])
